@@ -548,6 +548,9 @@ func genCFList(r *sim.Rand) []byte {
 		for i := 0; i < 5; i++ {
 			// channel frequencies in units of 100 Hz (400 MHz .. 1 GHz), unused slots trailing
 			f := uint32(4000000 + r.Intn(6000000))
+			if r.Intn(10) == 0 {
+				f = []uint32{1, 0xffffff, 0xfffffe, 0x800000}[r.Intn(4)] // ends of the 24-bit field
+			}
 			if i >= n {
 				f = 0
 			}
@@ -599,9 +602,18 @@ func nsTask(w *world, id int, netID lorawan.NetID, senderID string, n int, sub u
 		}
 		rq.joinEUI = rq.rec.dev.JoinEUI
 		rq.nonce = uint16(r.Intn(1 << 16))
+		if r.Intn(8) == 0 {
+			rq.nonce = []uint16{0, 1, 0xff, 0x100, 0xfffe, 0xffff}[r.Intn(6)]
+		}
 		rq.optNeg = r.Intn(2) == 0
 		rq.macVersion = []string{"1.0.2", "1.0.3", "1.0.4", "1.1.0", ""}[r.Intn(5)]
 		r.Fill(rq.devAddr[:])
+		switch r.Intn(12) {
+		case 0:
+			rq.devAddr = lorawan.DevAddr{}
+		case 1:
+			rq.devAddr = lorawan.DevAddr{0xff, 0xff, 0xff, 0xff}
+		}
 		rq.dl = lorawan.DLSettings{OptNeg: rq.optNeg, RX2DataRate: uint8(r.Intn(16)), RX1DROffset: uint8(r.Intn(8))}
 		rq.rxDelay = r.Intn(16)
 		if r.Intn(3) == 0 {
